@@ -87,6 +87,12 @@ Theorem above_cutoff_is_shown : forall o pr n v, o_nodecount o = 0 ->
 Proof. exact above_cutoff_is_shown_lemma. Qed.
 Print Assumptions above_cutoff_is_shown.
 
+(* the edge cutoff of the text pipeline: no shown edge weighs less than the cutoff *)
+Theorem shown_edge_not_below_cutoff : forall o pr e,
+  In e (g_edges (t_g (new_trimmed_text o pr))) -> (abs64 (e_w e) <? o_edgecutoff o) = false.
+Proof. exact shown_edge_not_below_cutoff_lemma. Qed.
+Print Assumptions shown_edge_not_below_cutoff.
+
 (* "the entries removed are exactly those below the cutoff or outside the top N": full statement.
    Proved above: what is shown is unchanged ([text_report_nodes_unchanged]); the exact identity of
    the shown list is evaluated by the specification checker on every generated case
